@@ -140,6 +140,11 @@ def handle(c):
             stats['query_errors'] += 1
             errs.setdefault('%s: %s: %s' % (k, type(e).__name__, str(e)[:100]), 0)
         a = snap(p)
+        if err is not None and (a[0].tobytes() != b[0].tobytes() or a[1].tobytes() != b[1].tobytes()):
+            # the call did not complete: the property speaks about calls that return.  The state is no longer
+            # the twin's, so the scenario ends here (counted, and described in FINDINGS.md observation 2)
+            stats['raised_and_left_state_perturbed'] = stats.get('raised_and_left_state_perturbed', 0) + 1
+            break
         for lab, i in (('inputs', 0), ('outputs', 1)):
             if a[i].tobytes() != b[i].tobytes():
                 d = np.nonzero(a[i] != b[i])[0][:4].tolist()
